@@ -253,7 +253,8 @@ func runC12(w *fw.Worker) {
 			if pk.name == "pflag" && lf.Name == "[]string" && v.Len() > 0 {
 				// pflag's own StringSlice flag reads CSV, not Go-quoted lists
 				texts = nil
-				items := v.Interface().([]string)
+				items := pflagCSVNorm(v.Interface().([]string))
+				acc = reflect.ValueOf(items)
 				k := r.Range(1, len(items))
 				per := (len(items) + k - 1) / k
 				for s0 := 0; s0 < len(items); s0 += per {
@@ -422,6 +423,16 @@ func runC12(w *fw.Worker) {
 			w.Sample(witness())
 		}
 	})
+}
+
+// pflagCSVNorm: pflag's own StringSlice flag reads its value with encoding/csv, which turns "\r\n" inside a quoted
+// field into "\n" (third-party format): values for such flags are generated without that sequence.
+func pflagCSVNorm(items []string) []string {
+	out := make([]string, len(items))
+	for k, it := range items {
+		out[k] = strings.ReplaceAll(it, "\r\n", "\n")
+	}
+	return out
 }
 
 func csvLine(items []string) string {
